@@ -58,6 +58,8 @@ pub struct TrCfg {
     pub pre_recv: u8,
     /// tear everything down at the end and check the payload table (Tok payload only)
     pub teardown: bool,
+    /// keep a second (idle) sender handle alive so that tx0 runs the multi-writer paths
+    pub multi_writer: bool,
 }
 
 pub const QUICK: TrCfg = TrCfg {
@@ -70,6 +72,7 @@ pub const QUICK: TrCfg = TrCfg {
     pre_send: 0,
     pre_recv: 0,
     teardown: false,
+    multi_writer: false,
 };
 
 pub fn traffic<F: Fl, const TOPO: u8, const OUTER: usize, const L0: u8, const L1: u8, const L2: u8>(c: &TrCfg) {
@@ -79,6 +82,9 @@ pub fn traffic<F: Fl, const TOPO: u8, const OUTER: usize, const L0: u8, const L1
     let mut w = World::<F>::new(c.cap);
     set_world::<F>(&mut w);
     let nstreams: u8 = if TOPO == 3 { 2 } else { 1 };
+    if c.multi_writer {
+        w.tx[2] = Some(F::clone_tx(w.tx[0].as_ref().unwrap()));
+    }
     // topology
     match TOPO {
         1 => {
@@ -287,6 +293,7 @@ pub const IN_CLONE: TrCfg = TrCfg {
     pre_send: 2,
     pre_recv: 1,
     teardown: true,
+    multi_writer: false,
 };
 
 // consumer A is in the middle of clone(); its sibling B on the same stream and the producer run there
@@ -296,6 +303,8 @@ tr!(c04_bc_streams_inclone, hk_c04_bc_streams_inclone, BcT, 3, 1, [2, 1, 1], IN_
 // sole consumer viewing in place; the producer tries to wrap the ring meanwhile
 tr!(c04_bc_view_inview, hk_c04_bc_view_inview, BcT, 5, 1, [3, 1, 0], TrCfg { per_site: 3, ..IN_CLONE });
 tr!(c04_mp_view_inview, hk_c04_mp_view_inview, MpT, 5, 1, [3, 1, 0], TrCfg { per_site: 3, ..IN_CLONE });
+// the same with two live senders: the producer runs the multi-writer path (CAS claim loop)
+tr!(c18_bc_shared_inclone_mw, hk_c18_bc_shared_inclone_mw, BcT, 2, 1, [2, 1, 1], TrCfg { multi_writer: true, ..IN_CLONE });
 // consumer A is in the middle of clone() when its sibling handle is dropped (consumers 2 -> 1)
 tr!(c06_bc_sibdrop_inclone, hk_c06_bc_sibdrop_inclone, BcT, 6, 1, [2, 1, 1], IN_CLONE);
 tr!(c06_bc_sibdrop_all, hk_c06_bc_sibdrop_all, BcB, 6, 1, [1, 1, 1], TrCfg { pre_send: 2, pre_recv: 1, ..QUICK });
@@ -304,7 +313,3 @@ tr!(c04_bc_shared_all, hk_c04_bc_shared_all, BcT, 2, 1, [1, 1, 1], TrCfg { pre_s
 tr!(c05_mp_shared_all, hk_c05_mp_shared_all, MpT, 2, 1, [1, 1, 1], TrCfg { pre_send: 2, pre_recv: 1, teardown: true, ..QUICK });
 
 
-// debugging probes
-tr!(x_dbg_td, hk_x_dbg_td, BcT, 2, 1, [1, 1, 1], TrCfg { budget: 0, pre_send: 2, pre_recv: 1, teardown: true, ..QUICK });
-tr!(x_dbg_notd, hk_x_dbg_notd, BcT, 2, 1, [1, 1, 1], TrCfg { budget: 0, pre_send: 2, pre_recv: 1, teardown: false, ..QUICK });
-tr!(x_dbg_u8, hk_x_dbg_u8, BcB, 2, 1, [1, 1, 1], TrCfg { budget: 0, pre_send: 2, pre_recv: 1, teardown: false, ..QUICK });
